@@ -480,6 +480,10 @@ func (e *Eval) builtin(fr *frame, x *ssa.Call, name string, args []AV, st State)
 			}
 			if d.Obj != nil {
 				src, _ := args[1].(BytesV)
+				if sv, isStr := args[1].(StrV); isStr && sv.Kind == skConst {
+					// copy(dst, "constant text"): the bytes of that text
+					src = BytesV{Src: "conv", Str: sv, LenKnown: true, Len: K(int64(len(sv.S)))}
+				}
 				src = e.resolveBytes(src, st)
 				cur := e.resolveBytes(d, st)
 				if cur.LenKnown && src.LenKnown && cur.Len == src.Len && d.LenKnown && d.Len == cur.Len {
